@@ -862,7 +862,8 @@ def s_made(I, f):
 
 SPEC_NS.update({"attr": s_attr, "made": s_made, "ne": lambda I, a, b: SPEC_NS["user_cmp_hook"](I, "ne", a, b, None)})
 _FATTRS = {"DField.name": "Str", "DField.repr": "Bool", "DField.default": "Val", "DField.default_factory": "Val", "DField.init": "Bool"}
-_OMIT_OK = "implies(T(arg_default), T(eq(field.default, attr(value, field.name))) or T(eq(made(field.default_factory), attr(value, field.name))))"
+_OMIT_OK = ("implies(T(arg_default), (T(ne(field.default, MISSING)) and T(eq(field.default, attr(value, field.name))))"
+            " or (T(ne(field.default_factory, MISSING)) and T(eq(made(field.default_factory), attr(value, field.name)))))")
 
 contract(
     GC + ".DataclassAdapter.arguments",
@@ -892,7 +893,8 @@ def _p_get_fields(I, args, kwargs, node):
     return Obj("FieldTable", {"items": lambda I2: pairs})
 
 
-_OMIT_OK_P = "implies(T(arg_default), T(eq(field.default, attr(value, name))) or T(eq(made(field.default_factory), attr(value, name))))"
+_OMIT_OK_P = ("implies(T(arg_default), (field.default is not PydanticUndefined and T(eq(field.default, attr(value, name))))"
+              " or (field.default_factory is not None and T(eq(made(field.default_factory), attr(value, name)))))")
 
 contract(
     GC + ".PydanticContainer.arguments",
@@ -948,6 +950,71 @@ contract(
             f"all(implies({_F} in ret[1], same(ret[1][{_F}].value, attr(value, {_F})) and not ret[1][{_F}].is_default) for j in range(0, len(nt_fields)))",
         "no-positional-arguments [C01]": "len(ret[0]) == 0",
     },
+    frame=[],
+    safety_props=["C18"],
+    assumes=["PS7"],
+)
+
+# AttrAdapter.arguments: `attrs.fields(type(value))`; a default is `attrs.NOTHING` (none), a plain value, or an `attrs.Factory`
+# (called without arguments, or with the instance when `takes_self`).  Environment: `isinstance(default, attrs.Factory)` is the
+# uninterpreted `isinst_Factory`, `default.factory` / `default.takes_self` are attributes of the default value.
+
+
+def _p_attrs_fields(I, args, kwargs, node):
+    I.ghost["fields_of"] = args[0]
+    return fresh_value(I.ctx, parse_ty("List[DField]"), "attrs_fields")
+
+
+def _attrs_module(I):
+    nothing = SV(z3.Const("attrs_NOTHING_sentinel", sort_of(VAL)), VAL)
+    from pyvc.types import ClassRef
+    from pyvc.types import FuncRef as _FR
+    return Obj("attrs-module", {"NOTHING": nothing, "Factory": ClassRef("Factory", "attrs.Factory"), "fields": _p_attrs_fields_m, "has": lambda I2, v: Opaque("attrs.has")})
+
+
+def _p_attrs_fields_m(I2, t):
+    return _p_attrs_fields(I2, [t], {}, None)
+
+
+def _attr_default_of(I, sv, attr):
+    if sv.ty == VAL and attr == "takes_self":
+        return SV(z3.Function("takes_self", sort_of(VAL), z3.BoolSort())(sv.t), BOOL)
+    return _any_attr(I, sv, attr)
+
+
+def s_attrs_default(I, field, value):
+    """the value the attrs-generated __init__ uses for a field that is not passed"""
+    d = I.V.abs_attr(I, field, "default", None)
+    isf = z3.Function("isinst_Factory", sort_of(VAL), z3.BoolSort())(d.t)
+    fac = _ATTR(d.t, z3.StringVal("factory"))
+    ts = z3.Function("takes_self", sort_of(VAL), z3.BoolSort())(d.t)
+    g = z3.Function("made_by_with", sort_of(VAL), sort_of(VAL), sort_of(VAL))
+    return SV(z3.If(isf, z3.If(ts, g(fac, val_term(I, value)), _MADE(fac)), d.t), VAL)
+
+
+def s_has_attrs_default(I, field):
+    d = I.V.abs_attr(I, field, "default", None)
+    return SV(d.t != z3.Const("attrs_NOTHING_sentinel", sort_of(VAL)), BOOL)
+
+
+SPEC_NS["attrs_default"] = s_attrs_default
+SPEC_NS["has_attrs_default"] = s_has_attrs_default
+
+contract(
+    GC + ".AttrAdapter.arguments",
+    params={"cls": "Opaque", "value": "Val"},
+    attrs=_FATTRS,
+    callees={"getattr": _p_getattr, GC + ".Argument": _p_argument, "Argument": _p_argument},
+    ghost={"vars": {"arg_value": "=None", "arg_default": "=None", "fields_of": "=None"}, "call_value_hook": _call_value, "abs_attr_default": _attr_default_of,
+           "locals": {"kwargs": "Dict[Str,ArgRec]"}, "names": {"attrs": _attrs_module}},
+    loops={0: Loop(index="k", ghost_modifies=["arg_value", "arg_default"], inv={}, iter_post={
+        "stores-the-current-value [C01,C02]": "implies(field.repr, kwargs[field.name].value is arg_value and same(arg_value, attr(value, field.name)))",
+        "omitted-only-when-equal-to-the-default [C01,C02,C11]":
+            "implies(field.repr, kwargs[field.name].is_default == T(arg_default) and implies(T(arg_default), has_attrs_default(field) and T(eq(attrs_default(field, value), attr(value, field.name)))))",
+    })},
+    returns=None,
+    result_name="ret",
+    ensures={"no-positional-arguments [C01,C02]": "len(ret[0]) == 0"},
     frame=[],
     safety_props=["C18"],
     assumes=["PS7"],
